@@ -59,7 +59,7 @@ type Type struct {
 	File      *File
 	Local     bool // a function-local type that merely shares a name (decoy)
 	DocLines  []string // rendered doc comment (kept so that a twin declaration is byte-identical)
-	Grouped   int      // 0 undecided, 1 plain declaration, 2 inside a type ( ... ) group
+	Grouped   int      // 0 undecided, 1 plain declaration, 2 inside a type ( ... ) group, 3 parenthesised struct type: type T (struct{...})
 }
 
 type Func struct {
@@ -135,6 +135,7 @@ const (
 	UFuncRef  // mention of a function; Call says whether it is called
 	UMethodRef
 	UImpl // the type declaration line of a type carrying @implements (all-codes builder)
+	URecvOpAssign // *r += 1 inside a method of T
 )
 
 // type mention sub-kinds
@@ -577,10 +578,10 @@ func (f *File) flatLines() []*Line {
 	return acc
 }
 
-var immCode = map[UseKind]string{UFieldAssign: "IMM01", UFieldOpAssign: "IMM02", UFieldIncDec: "IMM03", UFieldIndexAssign: "IMM04", URecvAssign: "IMM01", URecvIncDec: "IMM03"}
+var immCode = map[UseKind]string{UFieldAssign: "IMM01", UFieldOpAssign: "IMM02", UFieldIncDec: "IMM03", UFieldIndexAssign: "IMM04", URecvAssign: "IMM01", URecvIncDec: "IMM03", URecvOpAssign: "IMM02"}
 
 func kindName(k UseKind) string {
-	return [...]string{"field=", "field-op=", "field++", "field[i]=", "*recv=", "*recv++", "read", "lit", "new", "var-zero", "var-inert", "typeref", "funcref", "methodref", "impl"}[k]
+	return [...]string{"field=", "field-op=", "field++", "field[i]=", "*recv=", "*recv++", "read", "lit", "new", "var-zero", "var-inert", "typeref", "funcref", "methodref", "impl", "*recv-op="}[k]
 }
 
 // evalLine: the per-use part of the reference model (before @ignore and first-use resolution).
@@ -645,7 +646,7 @@ func evalLine(c *ctx, l *Line, effT func(*Type) bool, effF func(*Func) bool) (ou
 			continue
 		}
 		switch u.Kind {
-		case UFieldAssign, UFieldOpAssign, UFieldIncDec, UFieldIndexAssign, URecvAssign, URecvIncDec:
+		case UFieldAssign, UFieldOpAssign, UFieldIncDec, UFieldIndexAssign, URecvAssign, URecvIncDec, URecvOpAssign:
 			t := u.T
 			cls := "IMM/" + kindName(u.Kind)
 			if free(IMM) {
